@@ -23,7 +23,7 @@ import (
 	"verifharness/tlc"
 )
 
-const SpecDir = "/verif/specs/out"
+var SpecDir = rep.Root + "/specs/out"
 
 type Cmd struct {
 	ID     string     `json:"id"`
